@@ -210,5 +210,116 @@ func init() {
 			}
 			c.emit(e)
 		}
+		// pointers of another shape: the tree stores whatever implements orb.Pointer - here plain struct values that carry
+		// a slice (values of such a type cannot be compared with ==). Filled, searched, thinned by point and by a caller's
+		// match function, searched again; compared with a scan as above.
+		for it := 0; it < c.pick(6, 40); it++ {
+			n := 50 + c.rng.Intn(400)
+			bnd := orb.Bound{Min: orb.Point{0, 0}, Max: orb.Point{64, 64}}
+			q := quadtree.New(bnd)
+			live := map[string]qtVal{}
+			e := map[string]interface{}{"k": "big", "n": n, "nt": 1, "ok": 1, "what": ""}
+			setCurrent("quadtree(value pointers)", e)
+			fail := func(what string) {
+				if e["ok"] == 1 {
+					e["ok"], e["what"] = 0, "value pointers: "+what
+				}
+			}
+			verify := func(phase string) {
+				for j := 0; j < 40; j++ {
+					qp := orb.Point{float64(c.rng.Intn(65)), float64(c.rng.Intn(65))}
+					var ds []float64
+					for _, v := range live {
+						ds = append(ds, planar.DistanceSquared(v.p, qp))
+					}
+					sort.Float64s(ds)
+					f := q.Find(qp)
+					if (f == nil) != (len(ds) == 0) || (f != nil && planar.DistanceSquared(f.Point(), qp) != ds[0]) {
+						fail(phase + ": find")
+					}
+					k := 1 + c.rng.Intn(6)
+					kn := q.KNearest(nil, qp, k)
+					if len(kn) != minInt(k, len(ds)) {
+						fail(phase + ": k-nearest count")
+					}
+					for x, r := range kn {
+						if _, ok := live[r.(qtVal).tags[0]]; !ok || planar.DistanceSquared(r.Point(), qp) != ds[x] {
+							fail(phase + ": k-nearest order")
+							break
+						}
+					}
+					box := orb.MultiPoint{qp, {float64(c.rng.Intn(65)), float64(c.rng.Intn(65))}}.Bound()
+					cnt := 0
+					for _, v := range live {
+						if box.Contains(v.p) {
+							cnt++
+						}
+					}
+					if got := q.InBound(nil, box); len(got) != cnt {
+						fail(fmt.Sprintf("%s: bound search count %d, want %d", phase, len(got), cnt))
+					}
+				}
+			}
+			site := guard(func() {
+				for j := 0; j < n; j++ {
+					v := qtVal{p: orb.Point{float64(c.rng.Intn(65)), float64(c.rng.Intn(65))}, tags: []string{fmt.Sprint("v", j)}}
+					if q.Add(v) != nil {
+						fail("add inside the bound refused")
+					}
+					live[v.tags[0]] = v
+				}
+				verify("filled")
+				names := make([]string, 0, len(live))
+				for k := range live {
+					names = append(names, k)
+				}
+				sort.Strings(names)
+				for j, name := range names {
+					v, stored := live[name]
+					if !stored { // went with an earlier removal by point
+						continue
+					}
+					switch j % 3 {
+					case 0: // by point: any value stored at that point goes
+						if !q.Remove(v, nil) {
+							fail("remove by point of a stored value reported no match")
+						}
+						gone := 0
+						for _, o := range live {
+							if o.p == v.p && q.Matching(o.p, func(x orb.Pointer) bool { return x.(qtVal).tags[0] == o.tags[0] }) == nil {
+								delete(live, o.tags[0])
+								gone++
+							}
+						}
+						if gone != 1 {
+							fail(fmt.Sprintf("remove by point removed %d values", gone))
+						}
+					case 1: // by the caller's notion of identity
+						if !q.Remove(v, func(x orb.Pointer) bool { return x.(qtVal).tags[0] == name }) {
+							fail("remove by match function of a stored value reported no match")
+						}
+						delete(live, name)
+					}
+				}
+				if q.Remove(qtVal{p: orb.Point{0.5, 0.5}}, nil) {
+					fail("remove by point where nothing is stored reported a match")
+				}
+				verify("thinned")
+			})
+			if site != "" {
+				c.emit(panicEvent("quadtree(value pointers)", site, e))
+				continue
+			}
+			c.emit(e)
+		}
 	})
 }
+
+// qtVal is an orb.Pointer that is a plain value and cannot be compared with ==.
+type qtVal struct {
+	p    orb.Point
+	tags []string
+}
+
+func (v qtVal) Point() orb.Point { return v.p }
+
